@@ -550,6 +550,19 @@ func c29(c *hx.Ctx) {
 	for _, s := range bad {
 		c.Failf("c29-handler-after-release", map[string]any{"kind": "release-race"}, "%s", s)
 	}
+	// back-pressure: a subscribed peer that does not drain its stream while the last subscription is released
+	br := c.N / 100
+	if br < 2 {
+		br = 2
+	}
+	bp := backpressureUnsub(keys, br)
+	for i := 0; i < br; i++ {
+		c.Eval()
+	}
+	c.Class("backpressure-unsub")
+	for _, s := range bp {
+		c.Failf("c29-unsub-not-retracted-backpressure", map[string]any{"kind": "backpressure"}, "%s", s)
+	}
 	// subscribe/release hammering while new streams join: looks for a release between
 	// the initial-set pass and the sweep of the Execute loop body (one lock region since
 	// /repo 4585b8b, so this must never fire; oracle only)
